@@ -253,6 +253,21 @@ func (in *Interp) intrinsic(fn *ssa.Function, fi *fnInfo, args []Value, site ssa
 		case *smt.Term:
 			return unwrapNum(in.C.Floor(f)), true
 		}
+	case "math.Ceil":
+		switch f := args[0].(type) {
+		case float64:
+			return math.Ceil(f), true
+		case *smt.Term:
+			return unwrapNum(in.C.Neg(in.C.Floor(in.C.Neg(f)))), true
+		}
+	case "math.Trunc":
+		switch f := args[0].(type) {
+		case float64:
+			return math.Trunc(f), true
+		case *smt.Term:
+			c := in.C
+			return unwrapNum(c.Ite(c.Lt(f, c.Num(0)), c.Neg(c.Floor(c.Neg(f))), c.Floor(f))), true
+		}
 	case "math.Round":
 		switch f := args[0].(type) {
 		case float64:
